@@ -160,6 +160,7 @@ package packets1
 
 //@ inline (*MessageIDProperty).MessageID
 //@ inline (*MessageIDProperty).SetMessageID
+//@ inline (*MessageIDProperty).CopyMessageID
 //@ inline (*Publish).decodeFlags
 //@ inline (*Subscribe).decodeFlags
 //@ inline (*Unsubscribe).decodeFlags
